@@ -358,18 +358,23 @@ func (c *minecraftConn) bufferPacket(packet proto.Packet, canQueue bool) (err er
 		}
 	}()
 	if canQueue {
+		// Decide between queue and wire in one critical section with SetState:
+		// otherwise a concurrent state change can release and drop the queue we
+		// are about to push to (packet lost) and the deque is mutated unguarded.
 		c.mu.Lock()
-		playPacketQueue := c.playPacketQueue
+		queued, queueErr := c.playPacketQueue.Queue(packet)
+		if queueErr == nil && !queued {
+			_, err = c.wr.WritePacket(packet)
+		}
 		c.mu.Unlock()
-		queued, queueErr := playPacketQueue.Queue(packet)
 		if queueErr != nil {
 			return queueErr
 		}
 		if queued {
 			// Packet was queued, don't write it now
 			c.log.V(1).Info("queued packet", "packet", fmt.Sprintf("%T", packet))
-			return nil
 		}
+		return err
 	}
 	_, err = c.wr.WritePacket(packet)
 	return err
